@@ -118,6 +118,19 @@ CHECKS["C20"] = dict(
           "ordering / levels are pandapower's control loop (assumed)."),
     ref="DESIGN.md section 4 C20")
 
+CHECKS["C13"] = dict(
+    engine="E1",
+    technique="contract-based deductive verification of the pandapipes-owned glue only: the real init_time_series / pf_not_converged / run_loop / prepare_run_ctrl / run_control are evaluated from the AST with pandapower's functions replaced by recording stand-ins; loop structure obligations give the unbounded argument",
+    text=("Proved for the glue: pandapower's loop receives pipeflow as run function (unless the caller supplies one), the time steps and "
+          "continue_on_divergence unchanged, and error tuples containing PipeflowNotConverged; a diverged step re-raises iff "
+          "continue_on_divergence is off; run_loop calls run_time_step exactly once per time step, in order, with the same net / "
+          "ts_variables and no carried keyword state (simulation_time_step only when transient); the multinet time series uses the same loop."),
+    note=(TB + "ASSUMED, not verified: pandapower's run_time_step / run_control / init_time_series (apply the step's controller values, call "
+          "run, treat the error classes as divergence, log results). With that contract and the proved contracts of pipeflow (C05: raises on "
+          "divergence with NaN results; C12: a function of the non-underscore net entries) the property follows; this composition is "
+          "written out in DESIGN.md and not mechanised."),
+    ref="DESIGN.md section 4 C13")
+
 NOT_APPLICABLE = {
     "C08": "uniqueness of the solution of the nonlinear system within tolerances and convergence of damped Newton in floating point: a whole-history/analytic property, no pre/post contract within reach expresses it (DESIGN.md section 5)",
     "C15": "the save/load round trip is the behaviour of pandapower/pandas/json/pickle/scipy object state; a contract strong enough would have to assume the property (DESIGN.md section 5)",
